@@ -109,6 +109,50 @@ def case_fn(ctx, case):
     ctx.evaluations += cnt - 1
 
 
+FLAG_BYTES = (None, 0x00, 0x01, 0x02, 0x03, 0x05, 0x80, 0x81, 0xff)
+ALLOWED = (0x00, 0x01, 0x02, 0x03, 0x05, 0x7f, 0x81, 0xff)
+
+
+def flag_sig(seed, who, fb):
+    """a signature by `who` that is valid for the message its own flag byte selects (sigfield1/2 present)"""
+    key = (seed, 'flag', who, fb)
+    if key not in _CACHE:
+        cache, f1, f2, seeds = setup(seed)
+        msg = (b'' if (fb or 0) & 1 else f1) + (b'' if (fb or 0) & 2 else f2)
+        _CACHE[key] = refed.sign(seeds[who], msg) + (b'' if fb is None else bytes([fb]))
+    return _CACHE[key]
+
+
+def flag_mask_fn(ctx, case):
+    """every pair of flag bytes on two honest signatures x every allowed-flags operand: true exactly when
+    each flag byte is a subset of the operand (C02), else an error or false"""
+    n, m, allowed = case
+    seed = ctx.seed
+    cache, f1, f2, seeds = setup(seed)
+    cnt = 0
+    for order in (((0, 1), (1, 0)) if n == 2 else ((0,),)):
+        keypush = b''.join(push(refed.public_key(seeds[('L', i)])) for i in order)
+        for fa, fb in itertools.product(FLAG_BYTES, repeat=2):
+            if m == 1 and fb is not None:
+                continue
+            sigs = [flag_sig(seed, ('L', 0), fa)] + ([flag_sig(seed, ('L', 1), fb)] if m == 2 else [])
+            for so in ((0, 1), (1, 0))[:m]:
+                cnt += 1
+                sigpush = b''.join(push(sigs[i]) for i in so[:m])
+                exp = 'true' if all(((f or 0) & ~allowed) == 0 for f in (fa, fb)[:m]) else 'nottrue'
+                r, st, _ = run(sigpush + keypush + op('CHECK_MULTISIG') + bytes([allowed, m, n]), cache)
+                ctx.ran(); ctx.trans(m + n + 1)
+                got = 'raise' if r is not None else ('true' if st == [TRUE] else 'false' if st == [FALSE] else 'other')
+                ctx.state(('fm', n, m, allowed, order, fa, fb, so))
+                ctx.outcome('%s->%s' % (exp, got))
+                if not (got == exp or (exp == 'nottrue' and got in ('false', 'raise'))):
+                    ctx.violation({'op': 'CHECK_MULTISIG', 'kind': 'accepts' if got == 'true' else 'rejects',
+                                   'why': 'disallowed flag' if exp == 'nottrue' else 'permitted flags'},
+                                  f'n={n} m={m} keyorder={order} flag bytes={fa},{fb} sig order={so[:m]} allowed={allowed:#04x}: '
+                                  f'expected {exp}, got {got} {r!r} {st}')
+    ctx.evaluations += cnt - 1
+
+
 def builder_fn(ctx, case):
     """make_multisig_lock + witnesses through run_auth_scripts"""
     n, m, perm = case
@@ -177,7 +221,10 @@ def blocks(tier, seed):
     bcases = list(dict.fromkeys(bcases))
     # biggest cases first for load balance
     cases.sort(key=lambda c: -(len(tokens(c[0])) ** max(c[1] - 1, 0)))
+    fcases = [(n, m, a) for (n, m) in ((1, 1), (2, 1), (2, 2)) for a in ALLOWED]
     return [
+        Block('flag_masks', fcases, flag_mask_fn, 'allowed-flags operand x flag byte on each of <=2 honest signatures x key and '
+              'signature orders', nshards=len(fcases)),
         Block('sequences_x_keyorders', cases, case_fn,
               'every ordered token sequence x key order x allowed in {01,00}', nshards=min(len(cases), 256), backstop=7200),
         Block('builder_make_multisig_lock', bcases, builder_fn, 'n<=3 through make_multisig_lock + run_auth_scripts',
